@@ -8,7 +8,8 @@ checks, na = [], []
 for p in props:
     pid = p["id"]
     path = os.path.join(VERIF, "checks", pid.lower() + ".py")
-    if not os.path.exists(path):
+    enabled = open(os.path.join(VERIF, "checks", "ENABLED")).read().split()
+    if not os.path.exists(path) or pid not in enabled:
         na.append({"property_id": pid, "reason": "check not built yet in this round (runtime monitoring applies; see DESIGN.md section 3)"})
         continue
     m = importlib.import_module("checks." + pid.lower())
